@@ -181,7 +181,7 @@ def main():
         ],
         "checks": checks,
         "not_applicable": [{"property_id": k, "reason": v} for k, v in sorted(na.items())],
-        "notes": "Every verdict is 'holds for all inputs inside the bound stated in evidence/<id>.json'. exit 2 = inconclusive (timeout/OOM/vacuous harness/unreproduced counterexample), never reported as success. Known findings (genuine defects recorded rather than repaired) and the list of repaired ones are in /verif/known_findings.txt: currently three findings (C11 no_binary_name usage names; C12 sort-key collision between a short flag and a long-only option; C01/C02 a revisited short cluster taken whole as a hyphen value) and seventeen `fixed:` entries whose fix: commits are in /repo. See DESIGN.md 1.5.",
+        "notes": "Every verdict is 'holds for all inputs inside the bound stated in evidence/<id>.json'. exit 2 = inconclusive (timeout/OOM/vacuous harness/unreproduced counterexample), never reported as success. Known findings (genuine defects recorded rather than repaired) and the list of repaired ones are in /verif/known_findings.txt: currently three findings (C11 no_binary_name usage names; C12 sort-key collision between a short flag and a long-only option; C01/C02 a revisited short cluster taken whole as a hyphen value) and eighteen `fixed:` entries whose fix: commits are in /repo. See DESIGN.md 1.5.",
     }
     with open(os.path.join(VERIF, "MANIFEST.json"), "w") as f:
         json.dump(m, f, indent=1)
